@@ -43,6 +43,9 @@ func (k Kind) String() string {
 		if k.ViaPool {
 			return fmt.Sprintf("pool-%s", k.Ordering)
 		}
+		if k.Timeout < 0 {
+			return fmt.Sprintf("queue-%s-evict=%v-no-timeout", k.Ordering, k.Evict)
+		}
 		return fmt.Sprintf("queue-%s-evict=%v", k.Ordering, k.Evict)
 	case "blocking":
 		if k.Timeout == 0 {
